@@ -59,9 +59,28 @@ def invalid_programs() -> Iterator[tuple[str, Any]]:
         ("op-as-condition", [("if", False, [("c_operation", op("foo", 1))], [op("a")], [], None)], "none"),
         ("scn-bad-operator", [("if", False, [("c_scn", C("$S"), "!=", 1, 2)], [op("a")], [], None)], "none"),
     ]
+    cond = ("c_neg", False, "debug")
+    closed_before: dict[str, list[tuple]] = {
+        "after-forever": [("forever", [op("l"), ("ctrl", "break_loop")])],
+        "after-while": [("while", False, cond, [op("l")])],
+        "after-while-not": [("while", True, cond, [op("l")])],
+        "after-for": [("for", op("i"), cond, op("n"), [op("l")])],
+        "after-switch": [("switch", ("h_var", 1), [(("k_val", 1), [op("l"), ("ctrl", "break")]), (None, [op("d")])])],
+        "after-if": [("if", True, [cond], [op("l")], [(False, [cond], [op("m")])], [op("e")])],
+    }
     for rname, bad, legal in rules:
         for pname, body in placements(bad, legal):
             yield f"C10.{rname}.{pname}", ("expect-reject", prog(body))
+        # the same offending statement AFTER a construct of the legal kind has been closed (same routine, earlier
+        # routine, earlier macro): the construct must not stay open
+        for hname, before in closed_before.items():
+            yield f"C10.{rname}.{hname}", ("expect-reject", prog(before + bad))
+            yield (f"C10.{rname}.{hname}.routine",
+                   ("expect-reject", {"macros": [], "routines": [("def", 0, before + [("ctrl", "end")]),
+                                                                 ("def", 1, bad + [("ctrl", "end")])]}))
+            yield (f"C10.{rname}.{hname}.macro",
+                   ("expect-reject", {"macros": [("macro", "mm", [], before)],
+                                      "routines": [("def", 0, [("macrocall", "mm", [])] + bad + [("ctrl", "end")])]}))
     # macros
     mac = ("macro", "m", ["$a", "$b"], [op("x", C("$a"), C("$b"))])
     yield "C10.macro-too-few-args", ("expect-reject", prog([("macrocall", "m", [1])], [mac]))
